@@ -82,6 +82,86 @@ func siblingProbe(k any) func() []byte {
 	}
 }
 
+// reloadInto loads enc into obj through its own decoder (UnmarshalBinary or
+// Unpack taking a byte slice); false if it has none.
+func reloadInto(obj any, enc []byte) (done bool, err error) {
+	v := reflect.ValueOf(obj)
+	for _, name := range []string{"UnmarshalBinary", "Unpack"} {
+		m := v.MethodByName(name)
+		if !m.IsValid() || m.Type().NumIn() != 1 || m.Type().In(0) != reflect.TypeOf([]byte(nil)) {
+			continue
+		}
+		if name == "Unpack" {
+			// Unpack panics on a wrong length by contract: only exact encodings are passed
+		}
+		out := m.Call([]reflect.Value{reflect.ValueOf(lib.Clone(enc))})
+		if len(out) == 1 && !out[0].IsNil() {
+			if e, ok := out[0].Interface().(error); ok {
+				return true, e
+			}
+		}
+		return true, nil
+	}
+	return false, nil
+}
+
+// probeOwner: used holds A.  Its Public() result is reloaded with the public
+// key of B; afterwards used must still encode to encA and behave like a fresh
+// decode of A.  Returns true when a violation was reported.
+func probeOwner(what string, used, fresh binKey, encA, encB []byte, use func(k any) []byte) bool {
+	obj := any(used)
+	if w, ok := obj.(interface{ inner() any }); ok {
+		obj = w.inner()
+	}
+	m := reflect.ValueOf(obj).MethodByName("Public")
+	if !m.IsValid() || m.Type().NumIn() != 0 || m.Type().NumOut() != 1 {
+		return false
+	}
+	// B's public key bytes, and the reference behaviour of A, from the fresh object
+	if err := fresh.UnmarshalBinary(encB); err != nil {
+		return false
+	}
+	fobj := any(fresh)
+	if w, ok := fobj.(interface{ inner() any }); ok {
+		fobj = w.inner()
+	}
+	fm := reflect.ValueOf(fobj).MethodByName("Public")
+	if !fm.IsValid() {
+		return false
+	}
+	pubB, ok := fm.Call(nil)[0].Interface().(encoding.BinaryMarshaler)
+	if !ok || pubB == nil {
+		return false
+	}
+	pkB, err := pubB.MarshalBinary()
+	if err != nil {
+		return false
+	}
+	if err := fresh.UnmarshalBinary(encA); err != nil {
+		return false
+	}
+	want := use(fresh)
+	pubA := m.Call(nil)[0].Interface()
+	if pubA == nil || reflect.ValueOf(pubA).Kind() != reflect.Ptr {
+		return false
+	}
+	var done bool
+	if pn := lib.Try("reload-handed-out-public-key:"+what, pkB, func() { done, err = reloadInto(pubA, pkB) }); pn != nil || !done || err != nil {
+		return false
+	}
+	lib.Count("reuse:handed-out-public-key-reloaded")
+	mu, _ := used.MarshalBinary()
+	if !lib.Eq(mu, encA) {
+		reuseViol(what, "owner-changed-by-reloading-handed-out-object", "stage", "marshal", "got", mu, "want", encA)
+		return true
+	}
+	if got := use(used); !lib.Eq(got, want) {
+		reuseViol(what, "owner-changed-by-reloading-handed-out-object", "stage", "use", "after_reload", got, "fresh_object", want, "encA", encA, "pkB", pkB)
+		return true
+	}
+	return false
+}
+
 func reuseViol(what, class string, kv ...any) {
 	lib.Violation("C11:"+class+":"+what, monReuse, lib.D(kv...))
 }
@@ -101,6 +181,11 @@ func reuseBin(what string, used, fresh binKey, encA, encB []byte, use func(k any
 		return
 	}
 	_ = use(used) // fill every cache with A's data
+	// the other direction: the object handed out by Public() is loaded with
+	// ANOTHER key by its holder; the private key it came from must not notice
+	if probeOwner(what, used, fresh, encA, encB, use) {
+		return
+	}
 	// objects handed out by the used object while it held A (Public()) are
 	// separate values: reloading the object must not change them
 	probe := siblingProbe(used)
@@ -133,7 +218,7 @@ func reuseBin(what string, used, fresh binKey, encA, encB []byte, use func(k any
 }
 
 func TestVerifReuse(t *testing.T) {
-	lib.Mandatory("reuse:mlkem768.PrivateKey", "reuse:oprf.PrivateKey", "reuse:csidh.PublicKey")
+	lib.Mandatory("reuse:handed-out-public-key-reloaded", "reuse:mlkem768.PrivateKey", "reuse:oprf.PrivateKey", "reuse:csidh.PublicKey")
 	n := lib.Scale(12, 600)
 	for i := 0; i < n; i++ {
 		r := lib.NewRng("c11/reuse", i)
